@@ -1,5 +1,6 @@
 import GwModel.MergeDef
 import GwModel.Gen.Facts
+import GwModel.MergeSig
 /-! # C10 — Merging does not depend on service order or on the run -/
 namespace Props.C10
 open Mg Facts
@@ -33,5 +34,33 @@ theorem compat_symmetric {a b : Def} (h : Compat a b) : Compat b a := h.symm
 
 example : (mergeGroup [⟨3, .object, [⟨0, 7⟩], [9]⟩, ⟨3, .object, [⟨0, 7⟩, ⟨1, 8⟩], []⟩]).isSome =
           (mergeGroup [⟨3, .object, [⟨0, 7⟩, ⟨1, 8⟩], []⟩, ⟨3, .object, [⟨0, 7⟩], [9]⟩]).isSome := by decide
+
+/-- the comparison of two argument lists (`Ms.argDefsEq`, the model of mergeArgumentDefinitionList) holds in both
+    directions or in neither — which service is listed first does not decide whether their declarations agree -/
+theorem argument_comparison_is_symmetric {l1 l2 : List Ms.ArgDef} (hn1 : (l1.map (·.name)).Nodup)
+    (hn2 : (l2.map (·.name)).Nodup) : Ms.argDefsEq l1 l2 = Ms.argDefsEq l2 l1 := by
+  cases h1 : Ms.argDefsEq l1 l2 with
+  | true => exact (Ms.argDefsEq_symm hn1 hn2 h1).symm
+  | false =>
+    cases h2 : Ms.argDefsEq l2 l1 with
+    | true => rw [Ms.argDefsEq_symm hn2 hn1 h2] at h1; cases h1
+    | false => rfl
+
+/-- types and default values are compared by equality, which has no direction -/
+theorem type_and_default_comparisons_are_symmetric (a b : Option Ms.Ty) (v w : Option Ms.V) :
+    Ms.typesEqual a b = Ms.typesEqual b a ∧ Ms.valuesEqual v w = Ms.valuesEqual w v := by
+  constructor
+  · cases h : Ms.typesEqual a b with
+    | true => rw [(Ms.typesEqual_iff a b).1 h]; exact ((Ms.typesEqual_iff b b).2 rfl).symm
+    | false =>
+      cases h2 : Ms.typesEqual b a with
+      | true => rw [(Ms.typesEqual_iff b a).1 h2, (Ms.typesEqual_iff a a).2 rfl] at h; cases h
+      | false => rfl
+  · cases h : Ms.valuesEqual v w with
+    | true => rw [(Ms.valuesEqual_iff v w).1 h]; exact ((Ms.valuesEqual_iff w w).2 rfl).symm
+    | false =>
+      cases h2 : Ms.valuesEqual w v with
+      | true => rw [(Ms.valuesEqual_iff w v).1 h2, (Ms.valuesEqual_iff v v).2 rfl] at h; cases h
+      | false => rfl
 
 end Props.C10
